@@ -390,6 +390,10 @@ def random_walks(nwalks, depth, maxatoms, sd):
                 sorted(rb.sample(range(n), 25))]
         for S in sets:
             walks.append([{"op": "Construct", "k": 0, "frag": "BIGSPARSE", "other": K}, {"op": "Delete", "keys": [key(i) for i in S]}])
+    # one fixed history whose object ends up with twelve atom / bond / angle types (two-digit type ids in a written file)
+    if ("F3r", 3) in inst:
+        walks.append([{"op": "Construct", "k": 0, "frag": "F3r", "other": inst[("F3r", 0)]["K"]}] +
+                     [{"op": "Extend", "k": k, "frag": "F3r", "mode": "auto", "map": [], "other": inst[("F3r", k)]["K"]} for k in (1, 2, 3)])
     for w in range(nwalks):
         rnd = random.Random(sd * 7919 + w)
         f0 = rnd.choice([f for f in frags if f != "E"])
@@ -621,6 +625,7 @@ def run(prop, tier, replay=None):
                         continue
                     cases.append((b, R, v))
         out.exhaustive = True
+        walks = []
         if prop in ("C09", "C10", "C11"):
             walks = random_walks((40 if tier == "quick" else 600) if prop == "C09" else 0, 14 if tier == "quick" else 24, 40, sd)
             out.notes["random_walks"] = len(walks)
@@ -687,7 +692,8 @@ def run(prop, tier, replay=None):
         recorded_tests(out, prop, ops)
     if prop == "C09" and not replay:
         from . import lmpops
-        lmpops.writable_check(out, behs, sd, 1200 if tier == "quick" else 20000)
+        lmpops.writable_check(out, behs, sd, 1200 if tier == "quick" else 20000,
+                              always=[w for w in walks if len(w) > 2 and w[-1]["op"] not in ("Subset", "Copy", "Replicate")])
     out.notes["rejected_by_op_and_clause"] = {"%s/%s" % k: n for k, n in sorted(by_clause.items())}
     out.assumptions = ["projection/rendering code in harness/katoms.py (mechanical array dump, integer decoding)",
                        "TLC explores the bounded instance given in the evidence 'models' entry",
